@@ -24,8 +24,19 @@ RULE = ('One host (PubSubManager / AsyncPubSubManager subclass, real '
         'Oracle: every sentinel is delivered exactly once, in order; the '
         'listener only ends at end-of-stream; own-host echoes have no effect; '
         "a callback message for another host never completes a local "
-        'callback, one for this host completes it exactly once. Non-trivial: '
-        '>=3 different kinds of bad message and one fault in one sequence.')
+        'callback, one for this host completes it exactly once. Secondary '
+        'parts: (redis) RedisManager / AsyncRedisManager._listen over a fake '
+        'redis module with scripted listen() failures and subscribe failures '
+        '(ordering, back-off 1,2,4..60 with reset, one publish retry); '
+        '(redisbus) the real listener thread of both Redis managers attached '
+        'to a real server reads a scripted channel (emits of another host, '
+        'own echoes, hostile values in pickle / JSON / raw, connection '
+        'errors, non-message items) through a fake client that tracks '
+        'subscriptions and drops what arrives while the connection is not '
+        'subscribed; abandoned async generators are finalised by loop tasks '
+        'as in asyncio. Non-trivial: >=3 different kinds of bad message and '
+        'one fault in one sequence, or a listener restart followed by a '
+        'valid message.')
 ASSUMPTIONS = [
     'pickles are only built from generated data (no hostile opcodes)',
     'in-memory channel; the Redis managers are driven separately against a '
@@ -616,3 +627,252 @@ def _check_redis(case):
                         % (calls, want_calls))
     return {'part': 'redis', 'aio': aio,
             'nontrivial': len([s for s in segs if s['end'] == 'error']) >= 2}
+
+
+# ==========================================================================
+# third part: the bundled Redis managers as the client manager of a real
+# server, reading a scripted channel through a fake redis client that tracks
+# subscriptions (a message arriving while the connection is not subscribed to
+# the channel is not delivered, as with a real broker)
+
+def _redisbus_case_st():
+    junk = st.one_of(
+        st.none(), st.booleans(), st.integers(-3, 10**9), st.text(max_size=6),
+        st.binary(max_size=6), st.lists(st.integers(0, 3), max_size=3),
+        st.dictionaries(st.text(max_size=3), st.integers(), max_size=2),
+        st.sampled_from(['method', ['method'], 0, 1, 5, {'method': 5},
+                         {'method': 'emit'}, {'method': None}]))
+    item = st.one_of(
+        st.fixed_dictionaries({'k': st.just('emit')}),
+        st.fixed_dictionaries({'k': st.just('emit')}),
+        st.fixed_dictionaries({'k': st.just('own')}),
+        st.fixed_dictionaries({'k': st.just('hostile'), 'v': junk,
+                               'enc': st.sampled_from(['pickle', 'json',
+                                                       'raw'])}),
+        st.fixed_dictionaries({'k': st.just('hostile'), 'v': junk,
+                               'enc': st.just('pickle')}),
+        st.fixed_dictionaries({'k': st.just('error')}),
+        st.fixed_dictionaries({'k': st.just('nonmsg'),
+                               'type': st.sampled_from(
+                                   ['subscribe', 'other_channel',
+                                    'nodata'])}))
+    return st.fixed_dictionaries({
+        'part': st.just('redisbus'), 'aio': st.booleans(),
+        'items': st.lists(item, min_size=2, max_size=14)})
+
+
+def _check_redisbus(case):
+    import types
+    from .. import core
+    from ..eio_server import ServerHarness
+    core.bootstrap()
+    aio = case['aio']
+    items = case['items']
+    CH = 'socketio'
+    st_ = {'i': 0, 'n': 0, 'dropped': 0, 'sleeps': [], 'outer': 0}
+    expected = []
+    own_id = [None]
+
+    class RedisError(Exception):
+        pass
+
+    def encode(v, enc):
+        if enc == 'pickle':
+            return pickle.dumps(v)
+        if enc == 'json':
+            try:
+                return json.dumps(v).encode()
+            except TypeError:
+                return pickle.dumps(v)
+        if isinstance(v, bytes):
+            return v
+        return repr(v).encode()
+
+    def emit_msg(host_id, n):
+        return {'method': 'emit', 'event': 'e', 'data': n, 'namespace': '/',
+                'room': None, 'skip_sid': None, 'callback': None,
+                'host_id': host_id}
+
+    class PubSub:
+        def __init__(self):
+            self.subs = set()
+
+        def _next(self):
+            """The next thing the connection hands to listen(): a message
+            dict, or raises."""
+            while True:
+                if st_['i'] >= len(items):
+                    raise _StopScript()
+                it = items[st_['i']]
+                st_['i'] += 1
+                k = it['k']
+                if k == 'error':
+                    raise RedisError('connection lost')
+                if k == 'nonmsg':
+                    if it['type'] == 'subscribe':
+                        return {'channel': CH.encode(), 'type': 'subscribe',
+                                'data': 1}
+                    if it['type'] == 'other_channel':
+                        return {'channel': b'other', 'type': 'message',
+                                'data': pickle.dumps(emit_msg('x', -1))}
+                    return {'channel': CH.encode(), 'type': 'message'}
+                # a message published on the channel by someone
+                st_['n'] += 1
+                n = st_['n']
+                if k == 'emit':
+                    data = pickle.dumps(emit_msg('another-host', n))
+                elif k == 'own':
+                    data = pickle.dumps(emit_msg(own_id[0], n))
+                else:
+                    data = encode(it['v'], it['enc'])
+                if CH not in self.subs:
+                    st_['dropped'] += 1
+                    if k == 'emit':
+                        expected.append(('never-delivered-unsubscribed', n))
+                    continue
+                if k == 'emit':
+                    expected.append(n)
+                return {'channel': CH.encode(), 'type': 'message',
+                        'data': data}
+        if aio:
+            async def subscribe(self, ch):
+                self.subs.add(ch)
+
+            async def unsubscribe(self, ch):
+                self.subs.discard(ch)
+
+            async def listen(self):
+                while True:
+                    yield self._next()
+        else:
+            def subscribe(self, ch):
+                self.subs.add(ch)
+
+            def unsubscribe(self, ch):
+                self.subs.discard(ch)
+
+            def listen(self):
+                while True:
+                    yield self._next()
+
+    class Redis:
+        @classmethod
+        def from_url(cls, url, **kw):
+            return cls()
+
+        def pubsub(self, ignore_subscribe_messages=False):
+            return PubSub()
+        if aio:
+            async def publish(self, ch, data):
+                return 1
+        else:
+            def publish(self, ch, data):
+                return 1
+
+    fake = types.SimpleNamespace(
+        Redis=Redis, exceptions=types.SimpleNamespace(RedisError=RedisError))
+    if aio:
+        import socketio.async_redis_manager as M
+        saved = (M.aioredis, M.RedisError)
+        M.aioredis, M.RedisError = fake, RedisError
+    else:
+        import socketio.redis_manager as M
+        saved = (M.redis, M.time)
+        M.redis = fake
+        M.time = types.SimpleNamespace(
+            sleep=lambda s: st_['sleeps'].append(s), time=saved[1].time)
+    h = None
+    try:
+        if aio:
+            mgr = M.AsyncRedisManager('redis://', channel=CH)
+        else:
+            mgr = M.RedisManager('redis://', channel=CH)
+        own_id[0] = mgr.host_id
+        h = ServerHarness(aio=aio, client_manager=mgr)
+        sio = h.sio
+        logged = []
+
+        class _L:
+            def exception(self, msg, *a, **k):
+                logged.append(msg)
+
+            def error(self, msg, *a, **k):
+                logged.append(msg)
+
+            def _n(self, *a, **k):
+                pass
+            debug = info = warning = critical = log = _n
+
+            def isEnabledFor(self, lvl):
+                return False
+        sio.logger = _L()
+        sio.on('connect', lambda sid, environ, auth=None: None)
+        t = h.open()
+        for f in wire.frames(wire.CONNECT, '/'):
+            h.feed(t, f)
+        r = wire.Reader()
+        r.read(h.drain_msgs(t))
+        stopped = False
+        if aio:
+            task = h.loop.spawn(mgr._thread())
+            for _ in range(400):
+                h.loop.run_until_idle()
+                if task.done():
+                    break
+                if not h.loop.advance():
+                    break
+            if not task.done():
+                raise Violation('redisbus-listener-stuck',
+                                'the listener neither consumes the channel '
+                                'nor waits for a timer')
+            try:
+                task.result()
+            except _StopScript:
+                stopped = True
+            # finalisers of abandoned generators run as loop tasks
+            h.loop.run_until_idle()
+        else:
+            try:
+                mgr._thread()
+            except _StopScript:
+                stopped = True
+        if not stopped:
+            raise Violation('redisbus-listener-ended',
+                            'the listener thread returned although the '
+                            'channel was still open; log: %r' % logged[-3:])
+        got = [p['data'][1] for p in r.read(h.drain_msgs(t))
+               if p['type'] == wire.EVENT and p['data'][0] == 'e']
+        if got != expected:
+            raise Violation('redisbus-messages-lost',
+                            'delivered %r, emitted by other hosts %r '
+                            '(%d messages arrived while the connection was '
+                            'not subscribed)' % (got, expected,
+                                                 st_['dropped']))
+        kinds = {it['k'] for it in items}
+        outer = sum(1 for m in logged if 'Unexpected Error' in str(m))
+        return {'part': 'redisbus', 'aio': aio,
+                'listener_restarted': outer > 0,
+                'nontrivial': outer > 0 and 'emit' in kinds}
+    finally:
+        if aio:
+            M.aioredis, M.RedisError = saved
+        else:
+            M.redis, M.time = saved
+        if h is not None:
+            h.close()
+
+
+_prev_strategy = strategy
+_prev_check = check_case
+
+
+def strategy(tier):         # noqa: F811
+    return st.one_of(_main_strategy(tier), _main_strategy(tier),
+                     _main_strategy(tier), _redis_case_st(),
+                     _redisbus_case_st())
+
+
+def check_case(case):       # noqa: F811
+    if case.get('part') == 'redisbus':
+        return _check_redisbus(case)
+    return _prev_check(case)
